@@ -106,7 +106,7 @@ Proof.
     + destruct (str_in m (e_modules env)).
       * pose proof (register_mod_sim env m s s' Hs) as B.
         destruct (register_mod env m s) as [a|e], (register_mod env m s') as [b|e']; try contradiction.
-        -- apply IH; assumption.
+        -- apply IH; [assumption|apply sim_add_imports; exact B].
         -- subst e'. rewrite !with_loc_SErr. cbn [fst snd err_eq]. split; [exact Hs|reflexivity].
       * destruct (sk_truthy sk); [apply IH; assumption|].
         cbn [fst snd with_loc err_eq]. split; [exact Hs|reflexivity].
@@ -339,7 +339,7 @@ Proof.
         -- cbn [err_eq] in A2. subst e1'. cbn [fst snd wrap_chain fold_left err_match]. split; [exact A1|reflexivity].
       * cbn [fst snd wrap_chain fold_left err_match]. split; [exact Hs|reflexivity].
   - inversion Hpg; subst gs pe. rewrite flatten_px_nil in Hfl. inversion Hfl; subst tg fin.
-    cbn [run_tagged consume_tagged option_map fst snd err_match]. split; [apply sim_add_imports_l; exact Hs|exact I].
+    cbn [run_tagged consume_tagged option_map fst snd err_match]. split; [exact Hs|exact I].
   - inversion Hpg; subst gs pe. rewrite flatten_px_nil in Hfl. inversion Hfl; subst tg fin.
     cbn [run_tagged consume_tagged option_map fst snd err_match]. split; [exact Hs|reflexivity].
 Qed.
@@ -553,6 +553,65 @@ Proof.
   - left. exists sT. destruct fin as [eF|]; cbn [err_match] in B; [|contradiction]. subst eF. auto.
 Qed.
 
+(* ---------- what a failed parse with includes has RECORDED of the imports ---------- *)
+(* the tagged run records, group by group, the importable modules of the import statements it applies *)
+Lemma consume_tagged_records : forall env sk tgs s s0,
+  Forall (fun t => forallb (fun st => negb (is_include st)) (tg_stmts t) = true) tgs ->
+  consume_tagged env sk tgs s = (s0, None) ->
+  t_imports s0 = t_imports s ++ imports_of env (map tg_stmts tgs).
+Proof.
+  intros env sk tgs. induction tgs as [|t rest IH]; intros s s0 Hn H.
+  - cbn [consume_tagged] in H. inversion H. unfold imports_of. cbn [map flat_map]. rewrite app_nil_r. reflexivity.
+  - inversion Hn as [|t0 r0 Ht Hrest]; subst t0 r0. cbn [consume_tagged] in H.
+    destruct (resolve_group s sk (tg_file t) (tg_stmts t)) as [g'|e0] eqn:Hr; [|discriminate].
+    destruct (apply_stmts env sk (tg_file t) no_inc g' s [] []) as [s2 r2] eqn:Ha.
+    destruct r2 as [[im2 ic2]|e2]; [|discriminate].
+    assert (Hg' : forallb (fun st => negb (is_include st)) g' = true)
+      by (rewrite (resolve_group_noinc _ _ _ _ _ Hr); exact Ht).
+    destruct (apply_stmts_noinc_records _ _ _ _ _ _ _ _ _ _ _ Hg' Ha) as [_ B].
+    rewrite (resolve_group_imports env _ _ _ _ _ Hr) in B.
+    rewrite (IH _ _ Hrest H), B. unfold imports_of. cbn [map flat_map]. rewrite <- app_assoc. reflexivity.
+Qed.
+
+(* A failed parse of ANY config has recorded exactly the imports of the statements of the flattened text that took
+   effect before the failure, in order: those of every group before the failing one and, within the failing group,
+   those of the statements before the failing statement (all of them when the text was ended by its terminal error). *)
+Theorem C16_failed_parse_with_includes_records_imports : forall fuel env sk fname o pending ts s im ic gs pe tg fin s1 e,
+  parse_groups fuel o pending ts = (gs, pe) -> List.length gs < fuel ->
+  flatten_px fuel env fname gs pe = Some (tg, fin) ->
+  parse_tokens fuel env sk fname o pending ts s im ic = (s1, SErr e) ->
+  (exists s0, consume_tagged env sk tg s = (s0, None) /\ fin = Some e /\
+     t_imports s1 = t_imports s ++ imports_of env (map tg_stmts tg)) \/
+  (exists t1 t t2 s0 e0, tg = t1 ++ t :: t2 /\ consume_tagged env sk t1 s = (s0, None) /\
+     e = wrap_chain (chain_of t) e0 /\
+     ((resolve_group s0 sk (tg_file t) (tg_stmts t) = SErr e0 /\
+       t_imports s1 = t_imports s ++ imports_of env (map tg_stmts t1)) \/
+      exists g' pre st post s0' im' ic',
+        resolve_group s0 sk (tg_file t) (tg_stmts t) = SOk g' /\ g' = pre ++ st :: post /\
+        apply_stmts env sk (tg_file t) no_inc pre s0 [] [] = (s0', SOk (im', ic')) /\
+        apply_stmts env sk (tg_file t) no_inc [st] s0' im' ic' = (s0', SErr e0) /\
+        t_imports s1 = t_imports s ++ imports_of env (map tg_stmts t1) ++ flat_map (stmt_imports env) pre)).
+Proof.
+  intros fuel env sk fname o pending ts s im ic gs pe tg fin s1 e Hpg Hl Hfl Hp.
+  pose proof (flatten_px_noinc _ _ _ _ _ _ _ Hfl) as Hn.
+  destruct (C16_failed_parse_with_includes_located fuel env sk fname o pending ts s im ic gs pe tg fin s1 e
+              Hpg Hl Hfl Hp) as [[s0 [Hc [Hf Hs]]]|[t1 [t [t2 [s0 [e0 [E [Hc1 [He Hd]]]]]]]]].
+  - left. exists s0. split; [exact Hc|]. split; [exact Hf|].
+    rewrite (proj2 (proj2 (proj2 (proj2 Hs)))). eapply consume_tagged_records; eassumption.
+  - right. exists t1, t, t2, s0, e0. split; [exact E|]. split; [exact Hc1|]. split; [exact He|].
+    rewrite E in Hn. apply Forall_app in Hn. destruct Hn as [Hn1 Hn2].
+    inversion Hn2 as [|t0 r0 Ht _]; subst t0 r0.
+    pose proof (consume_tagged_records env sk t1 s s0 Hn1 Hc1) as R.
+    destruct Hd as [[Hr Hs]|[g' [pre [st [post [s0' [im' [ic' [c [Hr [Eg [Hpre [Hf [Hs _]]]]]]]]]]]]]].
+    + left. split; [exact Hr|]. rewrite (proj2 (proj2 (proj2 (proj2 Hs)))). exact R.
+    + right. exists g', pre, st, post, s0', im', ic'. repeat (split; [assumption|]).
+      assert (Hg' : forallb (fun st => negb (is_include st)) g' = true)
+        by (rewrite (resolve_group_noinc _ _ _ _ _ Hr); exact Ht).
+      rewrite Eg, forallb_app in Hg'. apply andb_true_iff in Hg'. destruct Hg' as [Hp' _].
+      destruct (apply_stmts_noinc_records _ _ _ _ _ _ _ _ _ _ _ Hp' Hpre) as [_ B].
+      rewrite (proj2 (proj2 (proj2 (proj2 Hs)))), B, R, <- app_assoc. reflexivity.
+Qed.
+
 (* ================================================================== *)
 (* (3) a parse error INSIDE an included file, one level, explicit     *)
 (* ================================================================== *)
@@ -669,11 +728,75 @@ Module C16DeepExample.
   Proof. vm_compute. reflexivity. Qed.
 End C16DeepExample.
 
+(* ---------- the code before the repair lost imports that had taken effect (fix e251e03) ---------- *)
+(* text:   import mod          (mod is importable: the statement takes effect)
+           nosuch.a = 1        (unknown configurable: the parse fails here)
+   and the same text as b.gin, included by  include 'b.gin' *)
+Module C16OrigImports.
+  Definition tk (t : ttype) (x : string) (r c e : nat) : token :=
+    {| ty := t; text := x; srow := r; scol := c; erow := r; ecol := e |}.
+  Definition nlc : string := String (Ascii.ascii_of_nat 10) "".
+  Definition text : gfile :=
+    {| f_tokens := [tk NAME "import" 1 0 6; tk NAME "mod" 1 7 10; tk NEWLINE nlc 1 10 11;
+                    tk NAME "nosuch" 2 0 6; tk OP "." 2 6 7; tk NAME "a" 2 7 8; tk OP "=" 2 9 10;
+                    tk NUMBER "1" 2 11 12; tk NEWLINE nlc 2 12 13; tk ENDMARKER "" 3 0 0];
+       f_oracle := [("1", Some (OZ 1))] |}.
+  Definition outer : gfile :=
+    {| f_tokens := [tk NAME "include" 1 0 7; tk STRING "'b.gin'" 1 8 15; tk NEWLINE nlc 1 15 16; tk ENDMARKER "" 2 0 0];
+       f_oracle := [("'b.gin'", Some (OT "str" [OS "b.gin"]))] |}.
+  Definition env : fenv :=
+    {| e_files := [((0, "b.gin"), text)]; e_readers := [0]; e_prefixes := [""]; e_modules := ["mod"]; e_mod_regs := [] |}.
+  Definition s0 : tstate := init_tstate [] [].
+  Definition err : serr := SEOther "ValueError" [("", 2)].
+  Definition err_in : serr := SEOther "ValueError" [("b.gin", 2); ("", 1)].
+
+  (* the text is the two statements *)
+  Example statements :
+    settle (f_tokens text) = POk (f_tokens text) /\
+    parse_groups 60 (f_oracle text) false (f_tokens text) =
+      ([[SImport "mod" false None 1]; [SBind "" "nosuch" "a" (OZ 1) 2]], None).
+  Proof. split; vm_compute; reflexivity. Qed.
+  (* before the repair: the same error, and NOTHING recorded of the import that took effect *)
+  Example orig_loses :
+    (let '(s, r) := parse_config_orig env SkFalse "" text s0 in (t_imports s, r)) = ([], SErr err) /\
+    (let '(s, r) := parse_config_orig env SkFalse "" outer s0 in (t_imports s, r)) = ([], SErr err_in).
+  Proof. split; vm_compute; reflexivity. Qed.
+  (* the repaired code *)
+  Example repaired_records :
+    (let '(s, r) := parse_config env SkFalse "" text s0 in (t_imports s, r)) = (["mod"], SErr err) /\
+    (let '(s, r) := parse_config env SkFalse "" outer s0 in (t_imports s, r)) = (["mod"], SErr err_in).
+  Proof. split; vm_compute; reflexivity. Qed.
+  (* on a parse that succeeds the two agree *)
+  Example agree_on_success :
+    let ok := {| f_tokens := firstn 3 (f_tokens text) ++ [tk ENDMARKER "" 2 0 0]; f_oracle := [] |} in
+    (let '(s, r) := parse_config_orig env SkFalse "" ok s0 in (t_imports s, r)) = (["mod"], SOk (["mod"], [])) /\
+    (let '(s, r) := parse_config env SkFalse "" ok s0 in (t_imports s, r)) = (["mod"], SOk (["mod"], [])).
+  Proof. split; vm_compute; reflexivity. Qed.
+End C16OrigImports.
+
+(* the original code violated "a failed parse records the imports of the statements that took effect": after
+   `import mod` / `nosuch.a = 1` (as a bindings string, and as an included file) it had recorded nothing *)
+Theorem C16_orig_failed_parse_loses_imports :
+  parse_groups 60 (f_oracle C16OrigImports.text) false (f_tokens C16OrigImports.text) =
+    ([[SImport "mod" false None 1]; [SBind "" "nosuch" "a" (OZ 1) 2]], None) /\
+  (* old model: the error, t_imports unchanged (empty) *)
+  (let '(s, r) := parse_config_orig C16OrigImports.env SkFalse "" C16OrigImports.text C16OrigImports.s0 in (t_imports s, r))
+    = (t_imports C16OrigImports.s0, SErr (SEOther "ValueError" [("", 2)])) /\
+  (let '(s, r) := parse_config_orig C16OrigImports.env SkFalse "" C16OrigImports.outer C16OrigImports.s0 in (t_imports s, r))
+    = (t_imports C16OrigImports.s0, SErr (SEOther "ValueError" [("b.gin", 2); ("", 1)])) /\
+  (* new model: the same errors, and the import is recorded *)
+  (let '(s, r) := parse_config C16OrigImports.env SkFalse "" C16OrigImports.text C16OrigImports.s0 in (t_imports s, r))
+    = (t_imports C16OrigImports.s0 ++ ["mod"], SErr (SEOther "ValueError" [("", 2)])) /\
+  (let '(s, r) := parse_config C16OrigImports.env SkFalse "" C16OrigImports.outer C16OrigImports.s0 in (t_imports s, r))
+    = (t_imports C16OrigImports.s0 ++ ["mod"], SErr (SEOther "ValueError" [("b.gin", 2); ("", 1)])).
+Proof. repeat split; vm_compute; reflexivity. Qed.
+
 Print Assumptions C16_failed_parse_with_includes_is_prefix.
 Print Assumptions apply_stmts_sim_eq.
 Print Assumptions wrap_chain_other.
 Print Assumptions wrap_chain_syntax.
 Print Assumptions C16_stream_eq_with_includes_gen.
+Print Assumptions C16_failed_parse_with_includes_records_imports.
 Print Assumptions C16_stream_eq_with_includes.
 Print Assumptions C16_parse_config_file_with_includes.
 Print Assumptions flatten_px_of_flatten_both.
@@ -682,6 +805,7 @@ Print Assumptions flatten_px_chain_top.
 Print Assumptions apply_one_err_loc.
 Print Assumptions C16_failed_parse_with_includes_located.
 Print Assumptions C16_syntax_error_in_include_one_level.
+Print Assumptions C16_orig_failed_parse_loses_imports.
 Print Assumptions C16DeepExample.hyps.
 Print Assumptions C16DeepExample.real_run.
 Print Assumptions C16DeepExample.hyps_syntax.
